@@ -1594,7 +1594,7 @@ class Record_A6(tputil.FancyStrMixin, tputil.FancyEqMixin):
         self.prefixLen = prefixLen
         self.suffix = socket.inet_pton(AF_INET6, suffix)
         self.prefix = Name(prefix)
-        self.bytes = int((128 - self.prefixLen) / 8.0)
+        self.bytes = (128 - self.prefixLen + 7) // 8
         self.ttl = str2time(ttl)
 
     def encode(self, strio, compDict=None):
@@ -1607,7 +1607,7 @@ class Record_A6(tputil.FancyStrMixin, tputil.FancyEqMixin):
 
     def decode(self, strio, length=None):
         self.prefixLen = struct.unpack("!B", readPrecisely(strio, 1))[0]
-        self.bytes = int((128 - self.prefixLen) / 8.0)
+        self.bytes = (128 - self.prefixLen + 7) // 8
         if self.bytes:
             self.suffix = b"\x00" * (16 - self.bytes) + readPrecisely(strio, self.bytes)
         if self.prefixLen:
